@@ -102,6 +102,9 @@ def one_case(ctx: Ctx, stream: str, i: int) -> None:
             if len(set(axes_sel)) != len(axes_sel):
                 axes_sel = list(dict.fromkeys(axes_sel))
             vshape = tuple((xshape[a] if rng.random() < 0.85 else 1) if a < xrank else rng.choice(DIMS) for a in axes_sel)
+            # MIXED signs: an axis inside the leaf may be spelt negatively (counted from the end of the LEAF, not of the
+            # extended leaf) next to a non-negative axis beyond the rank
+            axes_sel = [a - xrank if a < xrank and rng.random() < 0.5 else a for a in axes_sel]
             spec = tuple(axes_sel)
         else:
             pool = list(range(-xrank - ext, 0))
@@ -112,6 +115,7 @@ def one_case(ctx: Ctx, stream: str, i: int) -> None:
                 axes_sel = list(dict.fromkeys(axes_sel))
             vshape = tuple((xshape[a + xrank] if rng.random() < 0.85 else 1) if a >= -xrank else rng.choice(DIMS)
                            for a in axes_sel)
+            axes_sel = [a + xrank if a >= -xrank and rng.random() < 0.5 else a for a in axes_sel]
             spec = tuple(axes_sel)
         vrank = len(vshape)
     elif kind < 0.8:
